@@ -198,14 +198,42 @@ def wordPosting (h : THeap W Wt) (w : W) (d : Int) : Option Wt :=
   | some i => pt h i d
   | none => none
 
-/-- **the observable index is the table**: document words, not-indexed set, search results and the
-number of indexed documents are functions of the document table alone -/
+/-- **the observable index is the table**: document words, not-indexed set, search results, the
+number of indexed documents and Okapi's total document length are functions of the document table
+alone -/
 theorem c19_text_observable (c : TCfg Wt) (hf : FreqOK c) (h : THeap W Wt) (T : TTable W) (hI : TOInv c h T) :
     (∀ d, docWords h d = (tokensOfT T d).map (fun toks => toks.map some)) ∧
     (∀ d, d ∈ h.ni ↔ AMap.get T d = some none) ∧
     (∀ w d, (wordPosting h w d).isSome ↔ ∃ toks, tokensOfT T d = some toks ∧ w ∈ toks) ∧
-    h.indexedCount = ((AMap.keys T).filter (fun d => (tokensOfT T d).isSome)).length := by
-  refine ⟨?_, hI.ni, ?_, ?_⟩
+    h.indexedCount = ((AMap.keys T).filter (fun d => (tokensOfT T d).isSome)).length ∧
+    (c.okapi = true → h.totalDocLen =
+      ((AMap.keys T).map (fun d => (((tokensOfT T d).map List.length).getD 0 : Int))).sum) := by
+  refine ⟨?_, hI.ni, ?_, ?_, ?_⟩
+  rotate_left 3
+  · -- Okapi: the total document length is the number of tokens of the indexed documents
+    intro hok
+    rw [hI.core.tdl hok]
+    unfold sumW
+    have hsub : ∀ d ∈ AMap.keys h.docweight, d ∈ AMap.keys T := by
+      intro d hd
+      rw [AMap.mem_keys_iff, hI.core.docweight d, hI.docwords d] at hd
+      rw [AMap.mem_keys_iff]
+      unfold tokensOfT at hd
+      cases hg : AMap.get T d with
+      | none => rw [hg] at hd; simp at hd
+      | some v => rfl
+    rw [sum_eq_universe c.wtInt hI.core.wfDw hI.wfT hsub]
+    congr 1
+    apply List.map_congr_left
+    intro d _
+    rw [hI.core.docweight d, hI.docwords d]
+    cases tokensOfT T d with
+    | none => rfl
+    | some toks =>
+      simp only [Option.map_some, Option.getD_some]
+      rw [hf.len hok]
+      unfold idsOf
+      simp
   · intro d
     unfold docWords
     rw [hI.docwords d]
@@ -291,14 +319,15 @@ theorem c19_text_merged_observes_serial (c : TCfg Wt) (hc : c.Faithful) (hf : Fr
     (hM : commitSecondT H (TTx.run c (TTx.start H ia) opsA) (TTx.run c (TTx.start H ib) opsB) = some M) :
     let S := serialHeapT c H ia ib opsA opsB
     (∀ d, docWords M d = docWords S d) ∧ (∀ d, d ∈ M.ni ↔ d ∈ S.ni) ∧
-    (∀ w d, (wordPosting M w d).isSome ↔ (wordPosting S w d).isSome) ∧ M.indexedCount = S.indexedCount := by
+    (∀ w d, (wordPosting M w d).isSome ↔ (wordPosting S w d).isSome) ∧ M.indexedCount = S.indexedCount ∧
+    (c.okapi = true → M.totalDocLen = S.totalDocLen) := by
   intro S
   have iM := c19_text_conflict_or_serial c hc hf H T hI ia ib hab hoa hob opsA opsB hdis M hM
   have iS := c19_text_serial_refines c hc hf H T hI ia ib hab hoa hob opsA opsB
-  obtain ⟨m1, m2, m3, m4⟩ := c19_text_observable c hf M _ iM
-  obtain ⟨s1, s2, s3, s4⟩ := c19_text_observable c hf S _ iS
+  obtain ⟨m1, m2, m3, m4, m5⟩ := c19_text_observable c hf M _ iM
+  obtain ⟨s1, s2, s3, s4, s5⟩ := c19_text_observable c hf S _ iS
   exact ⟨fun d => (m1 d).trans (s1 d).symm, fun d => (m2 d).trans (s2 d).symm,
-    fun w d => (m3 w d).trans (s3 w d).symm, m4.trans s4.symm⟩
+    fun w d => (m3 w d).trans (s3 w d).symm, m4.trans s4.symm, fun hok => (m5 hok).trans (s5 hok).symm⟩
 
 end Hyp.CIdx
 
